@@ -322,6 +322,11 @@ func (iter *inIndexIterator) Next() (indexIterResult, error) {
 }
 
 func (iter *inIndexIterator) Close() error {
+	if iter.hasIterator {
+		// the iteration stopped before the values were exhausted (e.g. a limit was reached)
+		iter.hasIterator = false
+		return iter.indexIterator.Close()
+	}
 	return nil
 }
 
